@@ -154,7 +154,9 @@ impl Check for C09 {
             cid
         };
         let goaway_pos = draw_usize(k + 1);
-        let push_frames = if draw(3) == 2 { 1 + draw(2) } else { 0 };
+        // 1 / 2: one MAX_PUSH_ID / CANCEL_PUSH frame; 3: a burst of 16-40 MAX_PUSH_ID frames glued to the GOAWAY
+        let push_frames = if draw(3) == 2 { 1 + draw(3) } else { 0 };
+        let burst_len = 16 + draw(25) as u64;
         let own_shutdown_plan: (bool, u32, usize) = if draw(3) == 2 { (true, draw(60), draw_usize(4)) } else { (false, 0, 0) };
         let log: Rc<RefCell<Vec<Ev>>> = Default::default();
         let release = Rc::new(Gate::default());
@@ -173,15 +175,26 @@ impl Check for C09 {
                         }
                         // one run in three: frames a server merely ignores (MAX_PUSH_ID, CANCEL_PUSH) travel ahead of
                         // the GOAWAY, in a write of their own or glued to it
-                        if push_frames > 0 {
-                            let f = if push_frames == 1 { frames::frame(frames::MAX_PUSH_ID, &varint::encode(7)) } else { frames::frame(frames::CANCEL_PUSH, &varint::encode(0)) };
-                            net.lock().unwrap().raw_write(cid, CLIENT, &f);
-                            obs::count("probe.ignored_control_frame_ahead_of_goaway");
-                            for _ in 0..draw(6) {
-                                exec::yield_now().await;
+                        if push_frames == 3 {
+                            // everything in one write: the server finds all of it in one poll of its control stream
+                            let mut b = vec![];
+                            for v in 0..burst_len {
+                                b.extend(frames::frame(frames::MAX_PUSH_ID, &varint::encode(v)));
                             }
+                            b.extend(frames::goaway(0));
+                            net.lock().unwrap().raw_write(cid, CLIENT, &b);
+                            obs::count("probe.burst_of_ignored_control_frames_ahead_of_goaway");
+                        } else {
+                            if push_frames > 0 {
+                                let f = if push_frames == 1 { frames::frame(frames::MAX_PUSH_ID, &varint::encode(7)) } else { frames::frame(frames::CANCEL_PUSH, &varint::encode(0)) };
+                                net.lock().unwrap().raw_write(cid, CLIENT, &f);
+                                obs::count("probe.ignored_control_frame_ahead_of_goaway");
+                                for _ in 0..draw(6) {
+                                    exec::yield_now().await;
+                                }
+                            }
+                            net.lock().unwrap().raw_write(cid, CLIENT, &frames::goaway(0));
                         }
-                        net.lock().unwrap().raw_write(cid, CLIENT, &frames::goaway(0));
                         obs::ev("peer.goaway", 0, 0);
                     }
                     if pos < k {
@@ -244,7 +257,7 @@ impl Check for C09 {
                     match accept_or_gate(&mut c, gate.as_deref()).await {
                         Accepted::Gate => {
                             let (_, n) = own_shutdown.take().unwrap();
-                            obs::ev("app.shutdown", n as u64 * 4, 0);
+                            obs::ev("app.shutdown", (n as u64).saturating_mul(4), 0);
                             obs::count("probe.server_initiated_shutdown");
                             if let Err(e) = c.shutdown(n).await {
                                 log.borrow_mut().push(Ev::AcceptErr(format!("shutdown: {}", cout(&e))));
